@@ -22,10 +22,10 @@ RULE = ("cover-labelled networks of 1-5 motifs (edge, path, triangle, 4-cycle, d
 EXHAUSTIVE = {"quick": False, "thorough": False}
 EXPLANATION = ("all C17 theorems are general (any network, any sweep order, any T): model = spec when the motif "
                "equations are exact (checked per network by c17_check_motifs; proved for all motifs on <= 5 vertices "
-               "labelled 0..k-1 in C15), bounds, value 0 at phi = 0, history independence, soundness of the checker. "
+               "labelled 0..k-1 in C15), bounds, value 0 at phi = 0, monotonicity in phi (C17_monotone), history independence, "
+               "soundness of the checker. "
                "PARTIAL: that the iteration converges to THE fixed point is not proved (only the T-th Gauss-Seidel "
-               "iterate from 0.5 is characterised); monotonicity in phi is checked on the implementation's outputs by "
-               "the checker but not proved (C17_full keeps both).")
+               "iterate from 0.5 is characterised; C17_full keeps the statement).")
 ASSUMPTIONS = [
     "networkx Graph.edges / nodes / neighbors iteration orders are taken as observed (logged and given to the model)",
     "cover labels are consistent: every edge carries the label of exactly one motif, whose vertex and edge lists "
@@ -43,10 +43,10 @@ LEVEL_TEXT = (
     "0.5 with explicit update equation; C17_model_is_spec - if every (motif, focal) equation of the network is the "
     "exact expectation (decided by motifs_okb, a polynomial identity check; true for all motifs <= 5 vertices by C15) "
     "the model equals the specification iterate; C17_bounds - 0 <= value <= 1 for 0 <= phi <= 1; C17_zero - value 0 at "
-    "phi = 0 for every T >= 1; C17_history - any sequence of queries on one object (evaluator caches persist, _H_tau is "
+    "phi = 0 for every T >= 1; C17_monotone - 0 <= phi <= phi' <= 1 implies value(phi) <= value(phi') for every T; C17_history - any sequence of queries on one object (evaluator caches persist, _H_tau is "
     "reset) returns what fresh objects return; C17_wire_model - the reduced-fraction executable model equals the "
     "model; C17_check_sound. PARTIAL (C17_full kept as Definition): convergence of the iteration to the fixed point is "
-    "not proved; monotonicity in phi is only checked on the implementation's outputs by the checker.")
+    "not proved.")
 LEVEL_NOTE = ("Trusted: Coq kernel; extraction + OCaml driver + Python harness for the correspondence; networkx "
               "iteration orders as logged; float/rational tolerance 1e-9. No axioms.")
 
